@@ -21,11 +21,16 @@ type ParserData struct {
 		breakIndex    int
 	}
 	loopLayer int // 当前loop层数
-	codeStack []struct {
-		code      []ByteCode
-		index     int
-		textPos   int
-		loopLayer int
+	// if-blocks opened (block.push emitted, block.pop not yet) inside the innermost loop body;
+	// break/continue must close them before jumping, or the VM's block stack leaks one slot per jump
+	openBlocks      int
+	openBlocksStack []int
+	codeStack       []struct {
+		code       []ByteCode
+		index      int
+		textPos    int
+		loopLayer  int
+		openBlocks int
 	}
 }
 
@@ -47,6 +52,8 @@ func (e *ParserData) LoopBegin() {
 		continueIndex int
 		breakIndex    int
 	}{continueIndex: len(e.continueStack), breakIndex: len(e.breakStack)})
+	e.openBlocksStack = append(e.openBlocksStack, e.openBlocks)
+	e.openBlocks = 0
 }
 
 func (e *ParserData) LoopEnd() {
@@ -55,6 +62,15 @@ func (e *ParserData) LoopEnd() {
 	e.continueStack = e.continueStack[:info.continueIndex]
 	e.breakStack = e.breakStack[:info.breakIndex]
 	e.loopInfo = e.loopInfo[:len(e.loopInfo)-1]
+	e.openBlocks = e.openBlocksStack[len(e.openBlocksStack)-1]
+	e.openBlocksStack = e.openBlocksStack[:len(e.openBlocksStack)-1]
+}
+
+// closeOpenBlocks emits one block.pop per if-block that a break/continue is about to leave.
+func (e *ParserData) closeOpenBlocks() {
+	for i := 0; i < e.openBlocks; i++ {
+		e.WriteCode(typeBlockPop, nil)
+	}
 }
 
 func (e *ParserData) checkStackOverflow() bool {
@@ -92,6 +108,12 @@ func (e *ParserData) AddOp(operator CodeType) {
 	if operator == typeJne || operator == typeJmp {
 		val = IntType(0)
 		val = verifJumpSeed(val)
+	}
+	switch operator {
+	case typeBlockPush:
+		e.openBlocks++
+	case typeBlockPop:
+		e.openBlocks--
 	}
 	e.WriteCode(operator, val)
 }
@@ -184,6 +206,7 @@ func (p *ParserData) ContinuePush() error {
 		if p.continueStack == nil {
 			p.continueStack = []IntType{}
 		}
+		p.closeOpenBlocks()
 		p.AddOp(typeJmp)
 		p.continueStack = append(p.continueStack, IntType(p.codeIndex)-1)
 	} else {
@@ -218,6 +241,7 @@ func (p *ParserData) BreakPush() error {
 		if p.breakStack == nil {
 			p.breakStack = []IntType{}
 		}
+		p.closeOpenBlocks()
 		p.AddOp(typeJmp)
 		p.breakStack = append(p.breakStack, IntType(p.codeIndex)-1)
 		return nil
@@ -362,16 +386,18 @@ func (p *ParserData) AddAttrSet(objName string, attr string, isRaw bool) {
 
 func (p *ParserData) CodePush(textPos int) {
 	p.codeStack = append(p.codeStack, struct {
-		code      []ByteCode
-		index     int
-		textPos   int
-		loopLayer int
-	}{code: p.code, index: p.codeIndex, textPos: textPos, loopLayer: p.loopLayer})
+		code       []ByteCode
+		index      int
+		textPos    int
+		loopLayer  int
+		openBlocks int
+	}{code: p.code, index: p.codeIndex, textPos: textPos, loopLayer: p.loopLayer, openBlocks: p.openBlocks})
 	p.code = make([]ByteCode, 256)
 	p.codeIndex = 0
 	// a function or computed body is compiled into its own code block: a loop
 	// around the definition is not a loop that its break/continue could leave
 	p.loopLayer = 0
+	p.openBlocks = 0
 }
 
 func (p *ParserData) CodePop() ([]ByteCode, int, int) {
@@ -383,5 +409,6 @@ func (p *ParserData) CodePop() ([]ByteCode, int, int) {
 	p.code = info.code
 	p.codeIndex = info.index
 	p.loopLayer = info.loopLayer
+	p.openBlocks = info.openBlocks
 	return lastCode, lastIndex, info.textPos
 }
